@@ -16,6 +16,7 @@ CONSTANTS NM,          \* number of models
           Wild,        \* TRUE: handle arguments range over all nodes; FALSE: only plausible ones
           Emit,        \* TRUE: print one JSON line per transition (for replay on the real library)
           AttrValues,  \* set of <<attribute name, value>> used by SetAttr / RemoveAttr
+          DocNames,    \* names of the catalogue documents used by Load
           CheckProps   \* TRUE: evaluate the property predicates on every state / transition of the specification
 
 VARIABLES st, hist
@@ -60,6 +61,7 @@ Actions(s) ==
      \cup (IF "Duplicate" \in Ops /\ Len(s.root) < NM + 1 THEN {[A0 EXCEPT !.op = "Duplicate", !.m = m] : m \in 1..Len(s.root)} ELSE {})
      \cup (IF "SetAttr" \in Ops THEN UNION {{[A0 EXCEPT !.op = "SetAttr", !.p = p, !.an = av[1], !.val = av[2]] : av \in AttrValues} : p \in N} ELSE {})
      \cup (IF "RemoveAttr" \in Ops THEN {[A0 EXCEPT !.op = "RemoveAttr", !.p = p, !.an = an] : p \in N, an \in {av[1] : av \in AttrValues}} ELSE {})
+     \cup (IF "Load" \in Ops THEN {[A0 EXCEPT !.op = "Load", !.m = 1, !.k = d, !.name = d] : d \in DocNames} ELSE {})
      \cup (IF "SetComment" \in Ops THEN {[A0 EXCEPT !.op = "SetComment", !.p = p, !.name = cm] : p \in N, cm \in {"", "c--d"}} ELSE {})
 
 Red(s) == [n |-> s.n, f |-> s.f,
@@ -67,6 +69,7 @@ Red(s) == [n |-> s.n, f |-> s.f,
 
 Init == /\ st = FixState /\ hist = <<>>
         /\ PrintT(<<"FIX", ToJson(Fix)>>)
+        /\ (IF Depth = 0 THEN PrintT(<<"DOCS", ToJson([d \in DOMAIN LoadDocs |-> LoadText(d)])>>) ELSE TRUE)
 
 Next == /\ Len(hist) < Depth
         /\ LET so == SpecObs(st)
